@@ -343,11 +343,26 @@ def check_cls_key(ctx):
                  f'{MOD}:TestStatsTestsByLabels._build_labels_lod'):
         func = program.func(key_)
         for node in walk_local(func.node):
-            if not isinstance(node, ast.If):
+            if isinstance(node, ast.IfExp):
+                # SUCCESS if <verdict> else FAILURE
+                test = node.test
+                tru = _outcomes_in([ast.Expr(value=node.body)])
+                fal = _outcomes_in([ast.Expr(value=node.orelse)])
+            elif isinstance(node, ast.If):
+                test = node.test
+                tru = _outcomes_in(node.body)
+                fal = _outcomes_in(node.orelse)
+                # the presence test of the 'result' entry is judged below
+                if any(isinstance(c, ast.Constant) and c.value == 'result'
+                       for c in ast.walk(test)):
+                    continue
+                # an outer test whose branch holds the verdict test itself
+                if any(isinstance(sub, (ast.If, ast.IfExp)) and
+                       sub is not node and {'SUCCESS', 'FAILURE'} <=
+                       _outcomes_in([sub]) for sub in ast.walk(node)):
+                    continue
+            else:
                 continue
-            test = node.test
-            tru = _outcomes_in(node.body)
-            fal = _outcomes_in(node.orelse)
             if not (tru | fal) & {'SUCCESS', 'FAILURE'}:
                 continue
             found += 1
@@ -546,6 +561,21 @@ def check_verdict_keys(ctx):
             if got:
                 enums[ename] = got
         found += 1
+        # class-level constants read through `self` (a status the base
+        # class method compares with, overridden in the sub-classes)
+        consts = {}
+        for klass in reversed(program.mro(cinfo)):
+            for stmt in klass.node.body:
+                if isinstance(stmt, ast.Assign) and len(
+                        stmt.targets) == 1 and isinstance(
+                            stmt.targets[0], ast.Name):
+                    try:
+                        consts[stmt.targets[0].id] = MiniEval(
+                            enums, {}).ev(stmt.value, {})
+                    except Unknown:
+                        consts.pop(stmt.targets[0].id, None)
+                    except Exception:   # pylint: disable=broad-except
+                        consts.pop(stmt.targets[0].id, None)
         names = sorted(members, key=lambda n: members[n].value)
         wrong, unknown, n_states = [], [], 0
         for size in range(1, len(names) + 1):
@@ -553,7 +583,7 @@ def check_verdict_keys(ctx):
                 n_states += 1
                 classify = {members[n]: [f'item-{n}'] for n in present}
                 evaluator = MiniEval(
-                    enums, {'classify': classify},
+                    enums, dict(consts, classify=classify),
                     lambda mname, cinfo=cinfo: program.find_method(cinfo,
                                                                    mname),
                     globals_fn=lambda name, mod=meth.module:
